@@ -1451,7 +1451,7 @@ public:
       {
         if (up == low)         // no more columns to be scanned for current minimum.
         {
-          last = low - 1;
+          last = low; // columns colList[0..last-1] are ready
 
           // scan columns for up..dim-1 to find all indices for which new minimum occurs.
           // store these indices between low..up-1 (increasing up).
@@ -1525,7 +1525,7 @@ public:
       while (!unassignedFound);
 
       // update column prices.
-      for (k = 0; k <= last; k++)
+      for (k = 0; k < last; k++)
       {
         j1 = colList[k];
         v[j1] = v[j1] + d[j1] - min;
